@@ -1083,6 +1083,7 @@ func (in *Interp) visitInstr(fr *frame, instr ssa.Instruction) continuation {
 		if m == nil {
 			panic(runtimePanic{"assignment to entry in nil map"})
 		}
+		in.raceWrite(&m.rc)
 		in.mapInsert(m, fr.get(instr.Key), fr.get(instr.Value))
 
 	case *ssa.TypeAssert:
